@@ -192,7 +192,9 @@ class VdirStore(Store):
             fi = open_by_content_type(data, content_type, self.extra_file_handlers)
         if name is None:
             name = str(uuid.uuid4())
-            extension = MIMETYPES.guess_extension(content_type)
+            extension = MIMETYPES.guess_extension(
+                content_type.split(";")[0].strip()
+            )
             if extension is not None:
                 name += extension
         fi.validate()
